@@ -245,6 +245,30 @@ def handleEnumC (j : Json) : Json :=
   | .raises w => Json.mkObj [("kind", "raises"), ("what", Json.str w)]
   | .unmodelled => Json.mkObj [("kind", "unmodelled")]
 
+def handleFindOx (j : Json) : Json :=
+  let atoms : List EnumC.AtomV := match j.getObjVal? "atoms" with
+    | .ok (Json.arr a) => a.toList.map (fun x => match x with
+        | Json.arr #[z, r, i] => ⟨(z.getNat?.toOption).getD 0, (r.getNat?.toOption).getD 0, (i.getNat?.toOption).getD 0⟩
+        | _ => ⟨0, 0, 0⟩)
+    | _ => []
+  let adj : List (Nat × Nat × Nat) := match j.getObjVal? "adj" with
+    | .ok (Json.arr a) => a.toList.filterMap (fun x => match x with
+        | Json.arr #[a, b, o] => some ((a.getNat?.toOption).getD 0, (b.getNat?.toOption).getD 0, (o.getNat?.toOption).getD 0)
+        | _ => none)
+    | _ => []
+  let x : List Nat := match j.getObjVal? "x" with
+    | .ok (Json.arr a) => a.toList.map (fun y => (y.getNat?.toOption).getD 0)
+    | _ => []
+  let v : EnumC.View := ⟨atoms, adj⟩
+  let enc (r : EnumC.Res Nat) : Json := match r with
+    | .ok n => Json.num n
+    | .raises w => Json.str w
+    | .unmodelled => Json.null
+  match (j.getObjValAs? Nat "binding").toOption, (j.getObjValAs? Nat "position").toOption with
+  | some b, _ => Json.mkObj [("find", enc (EnumC.findOxygen v x b)), ("root", enc (EnumC.rootAtomId v x b))]
+  | none, some p => Json.mkObj [("find", enc (EnumC.findOxygenAt v [p]))]
+  | none, none => Json.mkObj [("error", "no binding / position")]
+
 def handleReact (j : Json) : Json :=
   let str (k : String) := ((j.getObjValAs? String k).toOption.getD "").toList
   let nat (k : String) := (j.getObjValAs? Nat k).toOption.getD 0
@@ -283,6 +307,7 @@ def handle (line : String) : Json :=
     | some "gate" => handleGate j
     | some "create" => handleCreate j
     | some "enumc" => handleEnumC j
+    | some "findox" => handleFindOx j
     | some "assemble" => handleAssemble j
     | some "match" => handleMatch j
     | some "start" => handleStart j
